@@ -7,8 +7,8 @@
    * a concrete interpreter [exec] (what the dispatcher stores into its own
      <entry>_dispatched slot), stuck ([None]) on anything that is not plainly defined:
      XGETBV with CPUID.1:ECX.OSXSAVE clear (#UD on hardware), CPUID with a leaf other
-     than 1 / (7,0), arithmetic on a pointer or on a register never written, a backward
-     branch, an unbalanced stack at [ret], a store to somebody else's slot;
+     than 1 / (7,0), arithmetic on a pointer or on a register never written, running out of
+     fuel (4 x program length), an unbalanced stack at [ret], a store to somebody else's slot;
    * a symbolic executor [sexec] producing a decision tree over atoms (field & mask) = val;
    * the checker [check] over such trees (known-set / known-clear masks per field, no
      enumeration of bit assignments), feature availability per the SDM, the architectural
@@ -214,6 +214,11 @@ Definition cstep (self : string) (e : env) (i : insn) (s : cst) : option (cst * 
   | CallSym _ | JmpSlot _ | Unsupported _ => None
   end.
 
+(* Branches may go backwards (the SHA-NI tail of two macros jumps back to the common
+   epilogue); termination is by fuel, and running out of fuel is stuck like everything else
+   that is not plainly defined. *)
+Definition fuel_of (p : list insn) : nat := 4 * List.length p + 4.
+
 Fixpoint crun (self : string) (e : env) (p : list insn) (fuel pc : nat) (s : cst) : option string :=
   match fuel with
   | O => None
@@ -227,7 +232,7 @@ Fixpoint crun (self : string) (e : env) (p : list insn) (fuel pc : nat) (s : cst
               match nx with
               | Stop => c_out s'
               | Fall => crun self e p f (S pc) s'
-              | Goto t => if Nat.ltb pc t then crun self e p f t s' else None
+              | Goto t => crun self e p f t s'
               end
           end
       end
@@ -235,7 +240,7 @@ Fixpoint crun (self : string) (e : env) (p : list insn) (fuel pc : nat) (s : cst
 
 (* what <self>_dispatch_init stores into <self>_dispatched under environment e *)
 Definition exec (self : string) (p : list insn) (e : env) : option string :=
-  crun self e p (S (List.length p)) 0 cinit.
+  crun self e p (fuel_of p) 0 cinit.
 
 (* ------------------------------------------------------------------ symbolic executor *)
 
@@ -345,12 +350,12 @@ Fixpoint srun (self : string) (p : list insn) (fuel pc : nat) (s : sst) : dtree 
             match nx with
             | Stop => Leaf (s_out s')
             | Fall => srun self p f (S pc) s'
-            | Goto t => if Nat.ltb pc t then srun self p f t s' else Leaf None
+            | Goto t => srun self p f t s'
             end)
       end
   end.
 
-Definition sexec (self : string) (p : list insn) : dtree := srun self p (S (List.length p)) 0 sinit.
+Definition sexec (self : string) (p : list insn) : dtree := srun self p (fuel_of p) 0 sinit.
 
 (* concretisation of symbolic values under an environment (used by the soundness proof and by
    nothing else) *)
@@ -467,13 +472,51 @@ Definition in_baseline (ft : feat) : bool := existsb (feat_eqb ft) baseline.
 
 (* ------------------------------------------------------------------ checker *)
 
-(* known facts on a path: per field, bits known set and bits known clear *)
-Definition known := field -> (N * N).
-Definition k0 : known := fun _ => (0, 0).
-Definition kset (k : known) (f : field) := fst (k f).
-Definition kclr (k : known) (f : field) := snd (k f).
+(* known facts on a path: per field, bits known set and bits known clear, plus the atoms
+   known to be false (a negated multi-bit test such as "XCR0[2:1] <> 11b" is not expressible
+   as set/clear bits, and the product walk of two trees meets the same test twice).
+   Plain data, so that evaluation cost does not depend on how the facts were accumulated. *)
+Record known := { k_1a : N * N; k_1b : N * N; k_1c : N * N; k_1d : N * N; k_7a : N * N; k_7b : N * N; k_7c : N * N; k_7d : N * N; k_xl : N * N; k_xh : N * N;
+                  k_neg : list (field * N * N) }.
+Definition k0 : known :=
+  {| k_1a := (0, 0); k_1b := (0, 0); k_1c := (0, 0); k_1d := (0, 0); k_7a := (0, 0); k_7b := (0, 0); k_7c := (0, 0); k_7d := (0, 0); k_xl := (0, 0); k_xh := (0, 0); k_neg := [] |}.
+Definition kget (k : known) (f : field) : N * N :=
+  match f with
+  | L1A => k_1a k
+  | L1B => k_1b k
+  | L1C => k_1c k
+  | L1D => k_1d k
+  | L7A => k_7a k
+  | L7B => k_7b k
+  | L7C => k_7c k
+  | L7D => k_7d k
+  | X0L => k_xl k
+  | X0H => k_xh k
+  end.
+Definition kput (k : known) (f : field) (p : N * N) : known :=
+  match f with
+  | L1A => {| k_1a := p; k_1b := k_1b k; k_1c := k_1c k; k_1d := k_1d k; k_7a := k_7a k; k_7b := k_7b k; k_7c := k_7c k; k_7d := k_7d k; k_xl := k_xl k; k_xh := k_xh k; k_neg := k_neg k |}
+  | L1B => {| k_1a := k_1a k; k_1b := p; k_1c := k_1c k; k_1d := k_1d k; k_7a := k_7a k; k_7b := k_7b k; k_7c := k_7c k; k_7d := k_7d k; k_xl := k_xl k; k_xh := k_xh k; k_neg := k_neg k |}
+  | L1C => {| k_1a := k_1a k; k_1b := k_1b k; k_1c := p; k_1d := k_1d k; k_7a := k_7a k; k_7b := k_7b k; k_7c := k_7c k; k_7d := k_7d k; k_xl := k_xl k; k_xh := k_xh k; k_neg := k_neg k |}
+  | L1D => {| k_1a := k_1a k; k_1b := k_1b k; k_1c := k_1c k; k_1d := p; k_7a := k_7a k; k_7b := k_7b k; k_7c := k_7c k; k_7d := k_7d k; k_xl := k_xl k; k_xh := k_xh k; k_neg := k_neg k |}
+  | L7A => {| k_1a := k_1a k; k_1b := k_1b k; k_1c := k_1c k; k_1d := k_1d k; k_7a := p; k_7b := k_7b k; k_7c := k_7c k; k_7d := k_7d k; k_xl := k_xl k; k_xh := k_xh k; k_neg := k_neg k |}
+  | L7B => {| k_1a := k_1a k; k_1b := k_1b k; k_1c := k_1c k; k_1d := k_1d k; k_7a := k_7a k; k_7b := p; k_7c := k_7c k; k_7d := k_7d k; k_xl := k_xl k; k_xh := k_xh k; k_neg := k_neg k |}
+  | L7C => {| k_1a := k_1a k; k_1b := k_1b k; k_1c := k_1c k; k_1d := k_1d k; k_7a := k_7a k; k_7b := k_7b k; k_7c := p; k_7d := k_7d k; k_xl := k_xl k; k_xh := k_xh k; k_neg := k_neg k |}
+  | L7D => {| k_1a := k_1a k; k_1b := k_1b k; k_1c := k_1c k; k_1d := k_1d k; k_7a := k_7a k; k_7b := k_7b k; k_7c := k_7c k; k_7d := p; k_xl := k_xl k; k_xh := k_xh k; k_neg := k_neg k |}
+  | X0L => {| k_1a := k_1a k; k_1b := k_1b k; k_1c := k_1c k; k_1d := k_1d k; k_7a := k_7a k; k_7b := k_7b k; k_7c := k_7c k; k_7d := k_7d k; k_xl := p; k_xh := k_xh k; k_neg := k_neg k |}
+  | X0H => {| k_1a := k_1a k; k_1b := k_1b k; k_1c := k_1c k; k_1d := k_1d k; k_7a := k_7a k; k_7b := k_7b k; k_7c := k_7c k; k_7d := k_7d k; k_xl := k_xl k; k_xh := p; k_neg := k_neg k |}
+  end.
+Definition kneg_add (k : known) (f : field) (m v : N) : known :=
+  {| k_1a := k_1a k; k_1b := k_1b k; k_1c := k_1c k; k_1d := k_1d k; k_7a := k_7a k; k_7b := k_7b k; k_7c := k_7c k; k_7d := k_7d k; k_xl := k_xl k; k_xh := k_xh k; k_neg := (f, m, v) :: k_neg k |}.
+Definition kset (k : known) (f : field) := fst (kget k f).
+Definition kclr (k : known) (f : field) := snd (kget k f).
 Definition kadd (k : known) (f : field) (s c : N) : known :=
-  fun g => if field_eqb g f then (N.lor (kset k g) s, N.lor (kclr k g) c) else k g.
+  kput k f (N.lor (kset k f) s, N.lor (kclr k f) c).
+
+(* "(f & m') <> v'" refutes "(f & m) = v" when m' is inside m and v agrees with v' on m' *)
+Definition neg_refutes (f : field) (m v : N) (n : field * N * N) : bool :=
+  let '(f', m', v') := n in
+  field_eqb f' f && (N.ldiff m' m =? 0) && (N.land v m' =? v').
 
 Inductive dec3 := DTrue | DFalse | DUnknown.
 
@@ -482,6 +525,7 @@ Definition decide (k : known) (f : field) (m v : N) : dec3 :=
   if negb (N.ldiff v m =? 0) then DFalse                    (* v has a bit outside the mask *)
   else if negb (N.land s (N.ldiff m v) =? 0) then DFalse    (* a bit known set must be clear *)
   else if negb (N.land c v =? 0) then DFalse                (* a bit known clear must be set *)
+  else if existsb (neg_refutes f m v) (k_neg k) then DFalse (* refuted by an atom known false *)
   else if N.ldiff m (N.lor s c) =? 0 then DTrue             (* every masked bit is known *)
   else DUnknown.
 
@@ -491,9 +535,10 @@ Definition assume_true (k : known) (f : field) (m v : N) : known := kadd k f v (
    with v, which [decide] has established), that bit is the opposite of v's *)
 Definition assume_false (k : known) (f : field) (m v : N) : known :=
   let u := N.ldiff m (N.lor (kset k f) (kclr k f)) in
+  let k' := kneg_add k f m v in
   if (negb (u =? 0)) && (u =? bit (N.log2 u)) then
-    if N.land v u =? 0 then kadd k f u 0 else kadd k f 0 u
-  else k.
+    if N.land v u =? 0 then kadd k' f u 0 else kadd k' f 0 u
+  else k'.
 
 (* closure of the known-set bits under the architectural rules *)
 Definition apply_rule (k : known) (r : rule) : known :=
@@ -717,11 +762,12 @@ Definition tree_of (d : dispatcher) : dtree := sexec (d_entry d) (d_code d).
 Definition check_disp (tbl : list (string * list feat)) (d : dispatcher) : bool :=
   stub_ok d && check (requires_of tbl) (k_of_feats (doc_min (d_entry d))) (tree_of d).
 
-(* same family for a group of dispatchers (all pairs against the first) *)
+(* same family for a group of dispatchers: every member (the first included, which makes its
+   own family well defined) against the first *)
 Definition group_ok (ds : list dispatcher) : bool :=
   match ds with
   | [] => true
-  | d0 :: r => forallb (fun d => agree (d_entry d0) (d_entry d) k0 (tree_of d0) (tree_of d)) r
+  | d0 :: _ => forallb (fun d => agree (d_entry d0) (d_entry d) k0 (tree_of d0) (tree_of d)) ds
   end.
 
 (* candidate counter-example for a dispatcher the checker rejects: the first path (in tree
@@ -739,3 +785,51 @@ Definition candidates (d : dispatcher) : list env :=
 
 Definition counterexample (tbl : list (string * list feat)) (d : dispatcher) : option env :=
   find (refutes tbl d) (candidates d).
+
+(* ------------------------------------------------------------------ the property's groups *)
+
+(* entry points that operate on one shared object (C12): hash manager init/submit/flush per
+   algorithm; GCM key precompute / init / update / finalize / one-shot per key size, the
+   non-temporal variants included (they consume the same key data and context); multi-hash
+   update/finalize per hash *)
+Definition hash_group (a : string) : string * list string :=
+  (String.append a "_mb manager",
+   map (fun s => String.append "_" (String.append a (String.append "_ctx_mgr_" s))) ["init"; "submit"; "flush"]).
+Definition gcm_group (ks : string) : string * list string :=
+  (String.append "gcm " ks,
+   map (fun s => String.append "_aes_gcm_" s)
+     [String.append "precomp_" ks; String.append "init_" ks;
+      String.append "enc_" ks; String.append "dec_" ks;
+      String.append "enc_" (String.append ks "_update"); String.append "dec_" (String.append ks "_update");
+      String.append "enc_" (String.append ks "_finalize"); String.append "dec_" (String.append ks "_finalize");
+      String.append "enc_" (String.append ks "_nt"); String.append "dec_" (String.append ks "_nt");
+      String.append "enc_" (String.append ks "_update_nt"); String.append "dec_" (String.append ks "_update_nt")]).
+Definition mh_group (h : string) : string * list string :=
+  (h, [String.append "_" (String.append h "_update"); String.append "_" (String.append h "_finalize")]).
+
+Definition group_names : list (string * list string) :=
+  map hash_group ["sha1"; "sha256"; "sha512"; "md5"; "sm3"] ++
+  map gcm_group ["128"; "256"] ++
+  map mh_group ["mh_sha1"; "mh_sha256"; "mh_sha1_murmur3_x64_128"].
+
+Definition lookup (ds : list dispatcher) (name : string) : option dispatcher :=
+  find (fun d => String.eqb (d_entry d) name) ds.
+Fixpoint resolve (ds : list dispatcher) (names : list string) : option (list dispatcher) :=
+  match names with
+  | [] => Some []
+  | n :: r => match lookup ds n, resolve ds r with
+              | Some d, Some l => Some (d :: l)
+              | _, _ => None
+              end
+  end.
+Definition group_checked (ds : list dispatcher) (g : string * list string) : bool :=
+  match resolve ds (snd g) with Some l => group_ok l | None => false end.
+
+(* who touches the dispatch slots: a store only from the slot's own <entry>_dispatch_init, an
+   indirect jump only from the slot's own stub, nothing else *)
+Definition ref_ok (r : string * string * string * string) : bool :=
+  let '(_, slot, kind, place) := r in
+  let e := substring 0 (Nat.sub (String.length slot) 11) slot in
+  String.eqb slot (String.append e "_dispatched") &&
+  ((String.eqb kind "store" && String.eqb place (String.append e ":code")) ||
+   (String.eqb kind "jmp" && String.eqb place (String.append e ":stub"))).
